@@ -118,6 +118,22 @@ P["C10"] = {
     "outside": "the Go allocator and collector themselves; more than 3 records; bank states with more than 2 type arenas",
     "assumptions": A_CORE + A_FILE,
 }
+P["C11"] = {
+    "common": {"validate": 6, "ignore_kinds": ["alloc", "unwind"], "runs": [
+        {"pattern": "verifHarness_C11_", "label_filter": "C11:"},
+        {"pattern": "verifHarness_C05_(ptr|map|slice)_(mapI64|mapI16|sliceI64|ptrI64|string|bytes|structX|arr4|arr16)", "label_filter": "C05:"}]},
+    "thorough": {"validate": 16},
+    "bounds": "what is decided: the schedule-independent sufficient condition for GC visibility - the heap the decoder (and encoder) builds is well-typed with respect to the pointer bitmaps of its allocations: every allocation made for a destination slot has the slot's element layout, pointers are stored only into pointer words, scalars never into them, every access stays inside its object (engine: byte-granular objects with a pointer-word shadow, strict mode on every store, typed unsafe_New / unsafe_NewArray / bank arrays / map headers). Explored: 24 target types (maps and slices behind pointers, maps of maps, maps of slices, slices of maps, maps and slices of pointers, nested structs in maps/slices/behind pointers, string and []byte in every position, null.* wrappers in maps and slices, pointer to fixed array under a caller schema), all values within the C01 bounds, decode, re-encode of the decoded value (runtime map iteration through mapiterinit/key/elem/next on a real map header, every iteration order) and decode again; plus the strict-heap C05 matrix rows for pointer/map/slice positions. Natively every replayed value is re-examined after forced collections and same-size-class allocation churn.",
+    "outside": "that the mapiter struct matches the runtime's iterator layout, and effects of a concurrently running collector on iteration: facts about the Go runtime, not encodable from the repository's SSA (the engine only checks that the iterator memory handed to the runtime is at least as large as the runtime's iterator)",
+    "assumptions": A_CORE,
+}
+P["C12"] = {
+    "common": {"validate": 4, "ignore_kinds": ["alloc", "unwind"], "runs": [{"pattern": "verifHarness_C12_", "label_filter": "C12:"}]},
+    "thorough": {"validate": 12},
+    "bounds": "what is decided: interleavings are not explored; the claim is discharged through the ownership / lockset theorem. For all inputs within the bounds, each operation - decode through a shared codec tree into private memory (with the pool handing out a fresh or a recycled bank), encode through a shared codec tree, Schema.Codec and SchemaForType (registry lookups), Register / RegisterSchema (first and repeated registration), ReadFile of a 2-record file of every codec, Close of a bank handed over from elsewhere, parsing a timestamp with an arbitrary numeric zone offset (zone cached or not) - (i) stores only into memory it allocated or was handed (sync.Pool.Get hands over), (ii) only reads shared codec trees and package globals, (iii) touches registry / schemaRegistry / tzMap (map header and value cells) only while holding the guarding mutex, in write mode for stores. Under these three facts any two operations are race-free under every schedule and each computes a function of its private inputs and the registry contents, which the harnesses also compare with the sequential result.",
+    "outside": "races inside the standard library, sync.Pool, snappy or flate; result-equivalence under concurrent registration of the same type (not independent operations); native happens-before replay under -race is not wired in (findings of this check are engine-level, reported as UB-class)",
+    "assumptions": A_CORE + A_FILE + A_TIME,
+}
 P["C13"] = {
     "common": {"validate": 6, "ignore_kinds": ["alloc", "unwind"], "runs": [{"pattern": "verifHarness_C13_", "label_filter": "C13:"}]},
     "thorough": {"validate": 16},
